@@ -34,16 +34,17 @@ def groupers(ctx, quick):
     # ---- tag
     cases = []
     for i in range(300 if quick else 3000):
-        tag = rnd.choice(["RG", "CB", "XG"]); g = RG.AlignmentTagReadGrouper(tag) if rnd.random() < .8 else None
-        if g is None:
-            args = types.SimpleNamespace(read_group=rnd.choice(["tag:" + tag, "tag"])); g = RG.create_read_grouper(args, None, "chrA")
-            tag = args.read_group.split(":")[1] if ":" in args.read_group else "RG"
+        tag = rnd.choice(["RG", "CB", "XG"]); direct = rnd.random() < .8; option = rnd.choice(["tag:" + tag, "tag"])
+        if not direct: tag = option.split(":")[1] if ":" in option else "RG"
         tags = {}
         for t in ("RG", "CB", "XG", "NM"):
             if rnd.random() < .5: tags[t] = 3 if t == "NM" else rnd.choice(["", "NA", "g1", "cell-7", "A B", "zeta", "10"])
         a = seg(rname(rnd), tags)
-        try: r = g.get_group_id(a, "f.bam")
-        except Exception as e: r = None; ctx.violation(None, "AlignmentTagReadGrouper raises %s" % type(e).__name__, {"tags": tags, "tag": tag})
+        try:
+            g = RG.AlignmentTagReadGrouper(tag) if direct else RG.create_read_grouper(types.SimpleNamespace(read_group=option), None, "chrA")
+            r = g.get_group_id(a, "f.bam")
+        except Exception as e:
+            ctx.violation(None, "AlignmentTagReadGrouper raises %s" % type(e).__name__, {"tags": tags, "tag": tag, "error": impl_error(e)}); continue
         v = tags.get(tag)
         cases.append(("(%s, %s, %s)" % (cos(v), cos(r), creg(g.read_groups)), {"grouper": "tag:" + tag, "tags": tags, "impl": r, "registered": sorted(g.read_groups)}))
     pre = PRE_G + "Definition check := check_tag.\nDefinition prop := prop_tag.\n"
@@ -60,10 +61,12 @@ def groupers(ctx, quick):
     for i in range(400 if quick else 5000):
         d = rnd.choice(delims); names.append((d, rname(rnd, (d, d))))
     for d, name in names:
-        g = RG.ReadIdSplitReadGrouper(d) if rnd.random() < .8 else RG.create_read_grouper(types.SimpleNamespace(read_group="read_id:" + d), None, "chrA")
         a = seg(name)
-        try: r = g.get_group_id(a, "f.bam")
-        except Exception as e: r = None; ctx.violation(None, "ReadIdSplitReadGrouper raises %s" % type(e).__name__, {"delim": d, "name": name})
+        try:
+            g = RG.ReadIdSplitReadGrouper(d) if rnd.random() < .8 else RG.create_read_grouper(types.SimpleNamespace(read_group="read_id:" + d), None, "chrA")
+            r = g.get_group_id(a, "f.bam")
+        except Exception as e:
+            ctx.violation(None, "ReadIdSplitReadGrouper raises %s" % type(e).__name__, {"delim": d, "name": name, "error": impl_error(e)}); continue
         cases.append(("(%s, %s, %s, %s)" % (cs(d), cs(name), cos(r), creg(g.read_groups)), {"grouper": "read_id:" + d, "read_name": name, "impl": r, "registered": sorted(x for x in g.read_groups if x is not None)}))
     pre = PRE_G + "Definition check := check_read_id.\nDefinition prop := prop_read_id.\n"
     mism, viol = ctx.corr("grouper_read_id", pre, cases, nontrivial=lambda o: o["impl"] not in ("NA", None))
@@ -102,11 +105,12 @@ def groupers(ctx, quick):
                 RG.prepare_read_groups(args, sample)
                 gr = {c: RG.create_read_grouper(args, sample, c) for c in ("chrA", "chrB")}
             except Exception as e:
-                ctx.violation(None, "read-group table preparation raises %s" % type(e).__name__, {"lines": lines, "option": opt.replace(tfile, "<table>")}); continue
+                ctx.violation(None, "read-group table preparation raises %s" % type(e).__name__, {"lines": lines, "option": opt.replace(tfile, "<table>"), "error": impl_error(e)}); continue
             for j, r in enumerate(reads):
                 g = gr["chrA" if j % 2 == 0 else "chrB"]
                 try: res = g.get_group_id(segs[j], bam)
-                except Exception as e: res = None; ctx.violation(None, "ReadTableGrouper raises %s" % type(e).__name__, {"lines": lines, "read": r})
+                except Exception as e:
+                    ctx.violation(None, "ReadTableGrouper raises %s" % type(e).__name__, {"lines": lines, "read": r, "error": impl_error(e)}); continue
                 cases.append(("(%d, %d, %s, %s, %s, %s, %s)" % (rc, gc, cs(delim), clist(lines, cs), cs(r), cos(res), creg(g.read_groups)),
                               {"grouper": opt.replace(tfile, "<table>"), "table_lines": lines, "read_name": r, "impl": res}))
             shutil.rmtree(d, ignore_errors=True)
@@ -123,10 +127,12 @@ def groupers(ctx, quick):
         libs = [[f] if rnd.random() < .8 else [f, f + ".2"] for f in files]
         sample = types.SimpleNamespace(readable_names_dict=None, file_list=libs)
         args = types.SimpleNamespace(input_data=types.SimpleNamespace(samples=[sample]), read_group="file_name")
-        g = RG.FileNameGrouper(args, sample) if rnd.random() < .7 else RG.create_read_grouper(args, sample, "chrA")
         f = rnd.choice([None, "", "/other/z.bam"] + [x for l in libs for x in l] * 3)
-        try: r = g.get_group_id(seg("r"), f)
-        except Exception as e: r = None; ctx.violation(None, "FileNameGrouper raises %s" % type(e).__name__, {"libs": libs, "filename": f})
+        try:
+            g = RG.FileNameGrouper(args, sample) if rnd.random() < .7 else RG.create_read_grouper(args, sample, "chrA")
+            r = g.get_group_id(seg("r"), f)
+        except Exception as e:
+            ctx.violation(None, "FileNameGrouper raises %s" % type(e).__name__, {"libs": libs, "filename": f, "error": impl_error(e)}); continue
         cases.append(("(%s, %s, %s, %s)" % (clist(libs, lambda l: clist(l, cs)), cos(f), cos(r), creg(g.read_groups)), {"grouper": "file_name", "libraries": libs, "filename": f, "impl": r}))
     pre = PRE_G + "Definition check := check_file_name.\nDefinition prop := prop_file_name.\n"
     mism, viol = ctx.corr("grouper_file_name", pre, cases, nontrivial=lambda o: o["impl"] != "NA")
@@ -166,7 +172,7 @@ def unit_grouped(ctx, quick):
             try:
                 res = run_real(case, True, d)
             except Exception as e:
-                ctx.violation(None, "grouped counter raises %s on well-formed input" % type(e).__name__, {"case": case, "error": repr(e)}); continue
+                ctx.violation(None, "grouped counter raises %s on well-formed input" % type(e).__name__, {"case": case, "error": impl_error(e)}); continue
             shutil.rmtree(d, ignore_errors=True)
             py = {"case": case, "header": res["ghdr"], "matrix": [(f, [str(x) for x in v]) for f, v in res["grows"]], "linear": [(f, g, str(v)) for f, g, v in res["glinear"]],
                   "ungrouped": [(f, [str(x) for x in v]) for f, v in res["urows"]]}
@@ -183,18 +189,30 @@ def unit_grouped(ctx, quick):
              "%d random cases; internal floats exact, printed cells within 0.005; specification grouped_ok evaluated in Coq on the printed tables; non-trivial = a non-zero cell" % n)
 
 
-def obs_g_files(d, kind, fi, gi):
-    hdr, rows, under = parse_table(os.path.join(d, "S.%s_grouped_counts.tsv" % kind))
-    lin = parse_linear(os.path.join(d, "S.%s_grouped_counts_linear.tsv" % kind))
-    _, tpm, _ = parse_table(os.path.join(d, "S.%s_grouped_tpm.tsv" % kind))
-    _, urows, _ = parse_table(os.path.join(d, "S.%s_counts.tsv" % kind))
-    return hdr, rows, lin, tpm, urows, under
+def intergenic_world(seed, rnd, pool):
+    """generated two-chromosome data set whose second chromosome is left out of the annotation; every read carries its ground-truth group for each of the four
+       grouping modes: a '|group' read-id suffix (85%, 5% an empty suffix), a CB tag (85%), a row of the group table (85%), the BAM file it is written to"""
+    import gen_data
+    w = gen_data.World(seed, n_chr=2); w.reads_from_annotation(per_isoform=6); w.novel_reads()
+    t = dict(read_id={}, tag={}, file={}, file_name={}, chr={})
+    for i, r in enumerate(w.reads):
+        x = rnd.random()
+        n = r["name"] + ("|" + rnd.choice(pool) if x < .85 else ("" if x < .95 else "|")); r["name"] = n
+        t["read_id"][n] = n.split("|")[-1] if "|" in n else "NA"
+        tag = rnd.choice(pool) if rnd.random() < .85 else None
+        r["tags"] = {"CB": tag} if tag is not None else {}
+        t["tag"][n] = tag or "NA"
+        t["file"][n] = rnd.choice(pool[:4]) if rnd.random() < .85 else None
+        t["file_name"][n] = i % 2                # World.write(n_bams=2) puts read i into file i % 2
+        t["chr"][n] = r["chr"]
+    return w, t
 
 
 def pipeline(ctx, quick):
     """whole runs with --read_group in its four modes: every cell of the grouped gene / transcript / transcript-model tables recomputed from the reported
-       read assignments and the ground-truth read -> group map; matrix vs linear; partition of the ungrouped tables; hash seeds; threads"""
-    import pipeline as P, pysam
+       read assignments and the ground-truth read -> group map; matrix vs linear; partition of the ungrouped tables; hash seeds; threads; gene and transcript
+       strategies that differ; reads outside annotated genes (unannotated chromosome, run without --genedb)"""
+    import pipeline as P, pysam, traceback
     from props.c02 import run_jobs
     root = P.scratch("iqv_c09p_")
     try:
@@ -229,52 +247,74 @@ def pipeline(ctx, quick):
                  "read_id": (["--bam", gbam, "--read_group", "read_id:|"], lambda n: truth_id[n]),
                  "file_name": (["--bam"] + fbams + ["--read_group", "file_name"], lambda n: labels[truth_file[n]])}
         common = ["--reference", b["fasta"], "--genedb", b["gtf"], "--complete_genedb", "--data_type", "nanopore", "-p", "S"]
-        plan = [("file", "both", "0", 1, "all", "A"), ("file", "both", "1", 1, "all", "A"), ("tag", "linear", "2", 1, "with_ambiguous", None), ("tag", "matrix", "0", 1, "unique_only", None),
-                ("read_id", "both", "3", 2, "unique_inconsistent", "B"), ("read_id", "both", "4", 2, "unique_inconsistent", "B"), ("file_name", "both", "0", 1, "unique_splicing_consistent", None)]
+        # (mode, --counts_format, hash seed, threads, --transcript_quantification, --gene_quantification, twin): the two strategies differ, in both directions
+        plan = [("file", "both", "0", 1, "all", "unique_only", "A"), ("file", "both", "1", 1, "all", "unique_only", "A"), ("tag", "linear", "2", 1, "with_ambiguous", "unique_only", None),
+                ("tag", "matrix", "0", 1, "unique_only", "all", None), ("read_id", "both", "3", 2, "unique_inconsistent", "with_ambiguous", "B"), ("read_id", "both", "4", 2, "unique_inconsistent", "with_ambiguous", "B"),
+                ("file_name", "both", "0", 1, "unique_splicing_consistent", "all", None)]
         if not quick:
-            plan += [(m, f, str(hs), 3, s, None) for m in modes for f in ("matrix", "linear", "both") for hs, s in ((5, "all"), (6, "with_ambiguous"))]
+            plan += [(m, f, str(hs), 3, tq, gq, None) for m in modes for f in ("matrix", "linear", "both") for hs, tq, gq in ((5, "all", "unique_splicing_consistent"), (6, "with_ambiguous", "with_ambiguous"), (7, "unique_only", "unique_inconsistent"))]
         jobs = []
-        for i, (mode, fmt, hs, thr, strat, twin) in enumerate(plan):
-            jobs.append(dict(name="bundled/%s/%s/seed%s/threads%d" % (mode, fmt, hs, thr), mode=mode, fmt=fmt, hashseed=hs, strat=strat, twin=twin and "b" + twin, gtf=b["gtf"], group_of=modes[mode][1],
-                             out=os.path.join(root, "r%d" % i), args=modes[mode][0] + common + ["--counts_format", fmt, "--threads", str(thr), "--transcript_quantification", strat, "--gene_quantification", strat]))
+        for i, (mode, fmt, hs, thr, tq, gq, twin) in enumerate(plan):
+            jobs.append(dict(name="bundled/%s/%s/seed%s/threads%d/tq=%s/gq=%s" % (mode, fmt, hs, thr, tq, gq), mode=mode, fmt=fmt, hashseed=hs, tq=tq, gq=gq, twin=twin and "b" + twin, gtf=b["gtf"], group_of=modes[mode][1],
+                             out=os.path.join(root, "r%d" % i), args=modes[mode][0] + common + ["--counts_format", fmt, "--threads", str(thr), "--transcript_quantification", tq, "--gene_quantification", gq]))
         # generated two-chromosome data, RG tags, three worker processes, two hash seeds
         wd = os.path.join(root, "w"); w = world_with_multilocus(7, n_multi=0)
         for r in w.reads:
             if rnd.random() < .15: r["tags"] = {}
-            elif r["chr"] == "chrB" and r["tags"].get("RG") == "zeta": r["tags"]["RG"] = "onlyA" if False else "alpha"     # group zeta absent from chrB
+            elif r["chr"] == "chrB" and r["tags"].get("RG") == "zeta": r["tags"]["RG"] = "alpha"     # group zeta absent from chrB
         wtruth = {r["name"]: r["tags"].get("RG", "NA") for r in w.reads}
         wpaths = write_world(w, wd)
         for hs in ("1", "2"):
-            jobs.append(dict(name="synthetic7/tag/both/seed%s/threads3" % hs, mode="tag", fmt="both", hashseed=hs, strat="all", twin="w", gtf=os.path.join(wd, "annotation.gtf"), group_of=lambda n: wtruth[n],
+            jobs.append(dict(name="synthetic7/tag/both/seed%s/threads3/tq=all/gq=unique_only" % hs, mode="tag", fmt="both", hashseed=hs, tq="all", gq="unique_only", twin="w", gtf=os.path.join(wd, "annotation.gtf"), group_of=lambda n: wtruth[n],
                              out=os.path.join(root, "w%s" % hs), args=["--bam", wpaths[0], "--read_group", "tag:RG", "--reference", os.path.join(wd, "genome.fa"), "--genedb", os.path.join(wd, "annotation.gtf"),
                                                                        "--complete_genedb", "--data_type", "nanopore", "-p", "S", "--counts_format", "both", "--threads", "3",
-                                                                       "--transcript_quantification", "all", "--gene_quantification", "all"]))
+                                                                       "--transcript_quantification", "all", "--gene_quantification", "unique_only"]))
+        # reads outside annotated genes, for every grouping mode: chrB is missing from the annotation / no annotation at all
+        iseeds = [11] + ([] if quick else [500 + ctx.seed, 600 + ctx.seed])
+        for ii, iseed in enumerate(iseeds):
+            idir = os.path.join(root, "i%d" % ii); iw, it = intergenic_world(iseed, rnd, pool); ipaths = iw.write(idir, n_bams=2)
+            merged = os.path.join(idir, "all.bam"); pysam.merge("-f", merged, *ipaths); pysam.index(merged)
+            pgtf = os.path.join(idir, "annotation_chrA_only.gtf")
+            with open(pgtf, "w") as f: f.writelines(l for l in open(os.path.join(idir, "annotation.gtf")) if l.split("\t")[0] == "chrA")
+            itbl = os.path.join(idir, "groups.tsv")
+            with open(itbl, "w") as f: f.writelines("%s\t%s\n" % (n, g) for n, g in it["file"].items() if g is not None)
+            ilabels = [os.path.splitext(os.path.basename(x))[0] for x in ipaths]
+            def truth_of(mode, it=it, ilabels=ilabels):
+                if mode == "file": return lambda n: it["file"][n] or "NA"
+                if mode == "file_name": return lambda n: ilabels[it["file_name"][n]]
+                return lambda n: it[mode][n]
+            imodes = {"file": ["--bam", merged, "--read_group", "file:%s" % itbl], "tag": ["--bam", merged, "--read_group", "tag:CB"],
+                      "read_id": ["--bam", merged, "--read_group", "read_id:|"], "file_name": ["--bam"] + ipaths + ["--read_group", "file_name"]}
+            for mi, mode in enumerate(imodes):
+                tq, gq = (("with_ambiguous", "unique_only"), ("unique_only", "all"))[mi % 2]
+                base = imodes[mode] + ["--reference", os.path.join(idir, "genome.fa"), "--data_type", "nanopore", "-p", "S", "--counts_format", "both", "--threads", "2",
+                                       "--transcript_quantification", tq, "--gene_quantification", gq]
+                for kind, extra, gtf in (("chrB-not-annotated", ["--genedb", pgtf, "--complete_genedb"], pgtf), ("no-annotation", [], None)):
+                    jobs.append(dict(name="synthetic%d/%s/%s/tq=%s/gq=%s" % (iseed, kind, mode, tq, gq), mode=mode, fmt="both", hashseed=str(mi), tq=tq, gq=gq, twin=None, gtf=gtf, group_of=truth_of(mode),
+                                     intergenic=it["chr"], out=os.path.join(root, "i%d_%s_%s" % (ii, mode, kind)), args=base + extra))
         run_jobs(jobs)
         ctx.cov["pipeline_runs"] += len(jobs)
-        cases = []; gtf_cache = {}; twins = {}
+        cases = []; gtf_cache = {}; twins = {}; outside = 0
         for j in jobs:
             rep = {"run": j["name"], "args": [a.replace(root, "<scratch>") for a in j["args"]], "PYTHONHASHSEED": j["hashseed"]}
             if j["rc"] != 0:
                 key = None
                 ctx.violation(key, "IsoQuant run with --read_group failed (exit %d): a read that cannot be grouped must be reported under NA" % j["rc"], dict(rep, log=j["log"][-1200:])); continue
-            if j["gtf"] not in gtf_cache: gtf_cache[j["gtf"]] = P.read_gtf(j["gtf"])
-            ref_tr, ref_genes = gtf_cache[j["gtf"]]
-            recs = parse_records(j["out"], "S", ref_tr)
-            model_tr, _ = P.read_gtf(os.path.join(j["out"], "S", "S.transcript_models.gtf"))
-            evs = [record_event(r, j["group_of"](r["read_id"])) for r in recs]
-            d = os.path.join(j["out"], "S"); snapshot = {}
-            tables = [("gene", "gene", evs, list(ref_genes), True, j["fmt"]), ("transcript", "transcript", evs, list(ref_tr), True, j["fmt"]),
-                      ("transcript_model", "transcript", model_events(j["out"], "S", model_tr, None, j["group_of"]), [], False, "both")]
-            for kind, level, events, complete, zeroes, fmt in tables:
-                hdr, rows, lin, tpm, urows, under = obs_g_files(d, kind, None, None)
-                snapshot[kind] = (hdr, rows, sorted(lin), tpm)
-                universe = set(hdr or []) | set(e["group"] for e in events if "group" in e) | set(g for _, g, _ in lin)
-                case = file_case(j["strat"], level, events, complete, zeroes, "simple", 0, fmt=fmt, groups=sorted(universe))
-                fi, gi = interners(case, extra_groups=universe)
-                obs = "(mkgobs [] %s %s %s %s %s)" % (czs([gi(g) for g in (hdr or [])]), crows(rows, fi), clinear(lin, fi, gi), crows(tpm, fi), crows(urows, fi))
-                if under: ctx.violation(None, "grouped table carries statistics lines", rep)
-                cases.append(("(%s, %s)" % (ccase(case, fi, gi), obs), dict(rep, table="S.%s_grouped_counts*.tsv" % kind, header=hdr, matrix=[(f, [str(x) for x in v]) for f, v in rows][:300],
-                                                                             linear=[(f, g, str(v)) for f, g, v in lin][:600])))
+            try:
+                if j["gtf"] is not None and j["gtf"] not in gtf_cache: gtf_cache[j["gtf"]] = P.read_gtf(j["gtf"])
+                ref_tr, ref_genes = gtf_cache[j["gtf"]] if j["gtf"] is not None else ({}, {})
+                recs = parse_records(j["out"], "S", ref_tr) if j["gtf"] is not None else None
+                model_tr, _ = P.read_gtf(os.path.join(j["out"], "S", "S.transcript_models.gtf"))
+                if "intergenic" in j:
+                    # the point of these runs: reads on the unannotated chromosome that are counted in the grouped transcript-model table
+                    rep["reads_outside_annotated_genes_counted_in_models"] = n_out = sum(1 for e in model_events(j["out"], "S", model_tr, None) if e["k"] == "raw" and any(model_tr[t]["chr"] == "chrB" for t in e["feats"] if t in model_tr))
+                    outside += n_out
+                    if n_out == 0: ctx.broken("pipeline:no-read-outside-annotated-genes", "run %s: no read on the unannotated chromosome reached the transcript-model tables, the run tests nothing" % j["name"])
+                cs, snapshot = grouped_cases(ctx, j, rep, recs, ref_tr, ref_genes, model_tr)
+            except Exception:
+                ctx.violation(None, "the output files of a finished --read_group run are missing or cannot be parsed", dict(rep, error=traceback.format_exc()[-1500:],
+                              files=sorted(os.listdir(os.path.join(j["out"], "S"))) if os.path.isdir(os.path.join(j["out"], "S")) else None)); continue
+            cases += cs
             if j["twin"]:
                 if j["twin"] in twins and twins[j["twin"]][1] != snapshot:
                     ctx.violation(None, "grouped tables differ between two runs that differ only in PYTHONHASHSEED", {"runs": [twins[j["twin"]][0], rep]})
@@ -282,11 +322,15 @@ def pipeline(ctx, quick):
         pre = PRE + "Definition check := check_g_files.\nDefinition prop := prop_g.\n"
         mism, viol = ctx.corr("pipeline_grouped_tables", pre, cases, shard=2, nontrivial=lambda o: len(o["header"] or []) > 1 or len(set(g for _, g, _ in o["linear"])) > 1, timeout=900)
         ctx.corr_report("pipeline_grouped_tables", mism, viol, keyfn=lambda o: None, what="a grouped table of a whole run: a read counted under the wrong group / groups do not add up to the ungrouped table / matrix and linear disagree")
-        ctx.rule("pipeline: the bundled chr9 alignments rewritten with pysam (CB tags on 85% of the reads, '|group' read-id suffixes on 85%, an empty suffix on 5%, two files) and a group table "
-                 "(15% of the reads missing, an extra column, a comment, a row for an unknown read), run with --read_group file:/tag:/read_id:/file_name x --counts_format "
-                 "matrix/linear/both x PYTHONHASHSEED 0-4 x threads 1-2, plus a generated two-chromosome data set (RG tags, a group absent from one chromosome, 15% untagged, "
-                 "threads 3, two hash seeds); every cell of the grouped gene/transcript/transcript-model tables, matrix and linear, is recomputed inside Coq from the reported "
-                 "assignments and the ground-truth read->group map (grouped_ok); twin runs differing only in the hash seed must give identical grouped tables")
+        ctx.rule("pipeline: the bundled chr9 alignments rewritten with pysam (CB tags on 85%% of the reads, '|group' read-id suffixes on 85%%, an empty suffix on 5%%, two files) and a group table "
+                 "(15%% of the reads missing, an extra column, a comment, a row for an unknown read), run with --read_group file:/tag:/read_id:/file_name x --counts_format "
+                 "matrix/linear/both x PYTHONHASHSEED 0-4 x threads 1-2, --transcript_quantification and --gene_quantification DIFFERENT in every run (both directions: all/unique_only, "
+                 "with_ambiguous/unique_only, unique_only/all, unique_inconsistent/with_ambiguous, unique_splicing_consistent/all), plus a generated two-chromosome data set (RG tags, a group absent from one "
+                 "chromosome, 15%% untagged, threads 3, two hash seeds), plus reads OUTSIDE annotated genes for every grouping mode: a generated data set whose second chromosome is missing from the "
+                 "annotation and the same data without --genedb, each under file: / tag: / read_id: / file_name (two BAM files) (%d reads on the unannotated chromosome counted in transcript-model tables); "
+                 "every cell of the grouped gene/transcript/transcript-model tables, matrix and linear, is recomputed inside Coq from the reported assignments, transcript_model_reads.tsv and the "
+                 "generator's ground-truth read->group map, each table under the strategy given for it (grouped_ok: cell = documented weight of the reads of that group, groups sum to the ungrouped "
+                 "table, matrix = linear); twin runs differing only in the hash seed must give identical grouped tables" % outside)
         ctx.notes.append("pipeline level: cells, partition sums and matrix/linear triples are evaluated inside Coq (grouped_ok); only the twin-run comparison across hash seeds is plain Python equality of parsed tables")
     finally:
         shutil.rmtree(root, ignore_errors=True)
@@ -296,10 +340,10 @@ def run(ctx):
     quick = ctx.tier == "quick"
     ctx.prepare("C09.v")
     from props.c02 import check_enums
-    if not check_enums(ctx): return
-    groupers(ctx, quick)
-    unit_grouped(ctx, quick)
-    pipeline(ctx, quick)
+    section(ctx, "enums", check_enums, ctx)            # a changed enumeration is reported as broken; the sections below still run on the members the model knows
+    section(ctx, "groupers", groupers, ctx, quick)
+    section(ctx, "unit_grouped", unit_grouped, ctx, quick)
+    section(ctx, "pipeline", pipeline, ctx, quick)
     ctx.assume.append("float -> rational reconstruction of internal counter values (Fraction.limit_denominator(30000), accepted only within 1e-9): float summation error is outside the model")
     ctx.assume.append("group and feature names are interned order-preservingly; tag values are strings (an integer-valued tag is outside the documented use); ASCII names; non-empty delimiters")
     ctx.assume.append("pysam: AlignedSegment.get_tag/query_name, AlignmentFile iteration")
